@@ -577,3 +577,16 @@ M('M01e', 'poller sends its outcomes to the main thread', ['C01'],
   [(D_POLL, 'match ctx.dbox.send(&ChannelId::ShmWriter, message) {', 'match ctx.dbox.send(&ChannelId::MainThread, message) {')], {'C01': ['C01.W1']})
 M('M01f', 'writer maps the record 8 bytes further', ['C01'],
   [(WRITER, 'let ceb: *mut ClockErrorBound = addr.add(size_of::<ShmHeader>()).cast();', 'let ceb: *mut ClockErrorBound = addr.add(size_of::<ShmHeader>() + 8).cast();')], {'C01': ['C01.W5']})
+
+# ---------------------------------------------------------------- seeded by independent sub-agents (see /verif/seeded/<label>/meta.json)
+import json as _json, os as _os
+_SEED = _os.path.join(_os.path.dirname(_os.path.dirname(_os.path.abspath(__file__))), 'seeded')
+if _os.path.isdir(_SEED):
+    for _lab in sorted(_os.listdir(_SEED)):
+        _m = _os.path.join(_SEED, _lab, 'meta.json')
+        if not _os.path.exists(_m):
+            continue
+        _d = _json.load(open(_m))
+        _pid = _d['property']
+        ENTRIES['S-' + _lab] = {'kind': 'mutant', 'what': 'seeded: ' + (_d.get('summary') or '')[:110], 'checks': [_pid],
+                                'patch': 'seeded/%s/patch.diff' % _lab, 'edits': [], 'expect': {_pid: []}}
